@@ -1,14 +1,17 @@
 (* C28 — S3 objects and multipart uploads round-trip.
    Only statements closed by [exact]; proofs live in proof/S3Multipart{Names,Parts,NS,Proofs}.v.
-   The model (model/S3Multipart.v) is faithful to the code INCLUDING its defects; every full
-   statement that the code violates comes as  _partial (under a decidable trigger)  +  _refuted. *)
+   The model (model/S3Multipart.v) is faithful to the code as it is now — after the repairs of
+   completeMultipartUpload (numeric part order, explicit listing limit), doDeleteEmptyDirectories,
+   CopyObject (source status) and CopyObjectPart (upload must exist) — INCLUDING its remaining
+   defects; every full statement that the code still violates comes as
+   _partial (under a decidable trigger) + _refuted. *)
 From Coq Require Import List NArith ZArith Bool String.
 From SW Require Import model.HttpRange model.S3Multipart
   proof.S3MultipartNames proof.S3MultipartParts proof.S3MultipartNS proof.S3MultipartProofs.
 Import ListNotations.
 Local Open Scope N_scope.
 
-(* ================= part file names ================= *)
+(* ================= part file names (facts about the names; ListParts still follows them) ================= *)
 
 (* for part numbers below 10000 the listing order of the "%04d.part" names is the numeric order
    (finite sweep over 0..9999 lifted by transitivity; bound stated here) *)
@@ -31,11 +34,11 @@ Print Assumptions c28_part_name_order_refuted.
 (* ================= multipart completion ================= *)
 
 (* whatever was uploaded: the completed object is the concatenation of the chunk bytes of the
-   LISTED entries in LISTING order, laid out with running offsets (no holes, no overlap) *)
-Theorem c28_complete_running_offsets : forall c d,
-  (forall e, In e (listed c d) -> has_part_suffix (fst e) = true) ->
-  seq_from 0 (f_chunks (completed_file c d)) /\
-  file_bytes (completed_file c d) = List.concat (map entry_bytes (listed c d)).
+   listed entries, ordered by part number, laid out with running offsets (no holes, no overlap) *)
+Theorem c28_complete_running_offsets : forall d,
+  (forall e, In e (sort_by_number (listed d)) -> has_part_suffix (fst e) = true) ->
+  seq_from 0 (f_chunks (completed_file d)) /\
+  file_bytes (completed_file d) = List.concat (map entry_bytes (sort_by_number (listed d))).
 Proof. exact complete_is_listing_concat. Qed.
 Print Assumptions c28_complete_running_offsets.
 
@@ -47,55 +50,45 @@ Theorem c28_parts_last_writer : forall h n, pfind n (parts_of h) = last_body n h
 Proof. exact parts_of_last. Qed.
 Print Assumptions c28_parts_last_writer.
 
+(* for EVERY set of part numbers up to 10000 (10000 next to 1001..9999 included) the name-ordered
+   directory, sorted by part number, is the list of parts in ascending part-number order; and the
+   explicit listing limit never cuts it *)
+Theorem c28_sorted_listing_is_ascending : forall c h, (forall n, In n (map fst h) -> n <= 10000) ->
+  sort_by_number (dir_of c h) = map (enc c) (parts_of h).
+Proof. exact sorted_dir_is_parts. Qed.
+Print Assumptions c28_sorted_listing_is_ascending.
+Theorem c28_listing_complete : forall c h, (forall n, In n (map fst h) -> n <= 10000) ->
+  listed (dir_of c h) = dir_of c h.
+Proof. exact listed_all. Qed.
+Print Assumptions c28_listing_complete.
+
 (* c28_multipart_concat: for every history h of accepted part uploads (number, body) with
    numbers <= 10000, any chunk size > 0: completed object = concatenation of the parts in
-   ASCENDING PART-NUMBER order — outside triggers 0 (part 10000 with a part in 1001..9999),
-   1 (more parts than -dirListLimit), 2 (parts stored inline because of -saveToFilerLimit) *)
+   ASCENDING PART-NUMBER order — outside trigger 0 (parts stored inline because of -saveToFilerLimit) *)
 Theorem c28_multipart_concat_partial : forall c h,
   0 < c_chunk c ->
   (forall n, In n (map fst h) -> n <= 10000) ->
-  trig_order (map fst h) = false ->
-  trig_limit c (dir_of c h) = false ->
   trig_inline (dir_of c h) = false ->
-  file_bytes (completed_file c (dir_of c h)) = List.concat (map snd (parts_of h)).
+  file_bytes (completed_file (dir_of c h)) = List.concat (map snd (parts_of h)).
 Proof. exact complete_concat. Qed.
 Print Assumptions c28_multipart_concat_partial.
 
-(* the trigger evaluated by the check (on the names found in the directory) is this trigger *)
+(* finding 0: with -saveToFilerLimit 4 the parts shorter than 4 bytes are silently dropped *)
+Theorem c28_multipart_concat_refuted_inline :
+  let c := {| c_inline := 4; c_chunk := 8 |} in
+  let h := [(1, [1; 1]); (2, [2; 2; 2; 2; 2]); (3, [3])] in
+  (forall n, In n (map fst h) -> n <= 10000) /\
+  List.concat (map snd (parts_of h)) = [1; 1; 2; 2; 2; 2; 2; 3] /\
+  file_bytes (completed_file (dir_of c h)) = [2; 2; 2; 2; 2].
+Proof. exact complete_concat_refuted_inline. Qed.
+Print Assumptions c28_multipart_concat_refuted_inline.
+
+(* the trigger of finding 4 (ListParts order) as evaluated by the check (on the names found in
+   the directory) is the trigger on the uploaded part numbers *)
 Theorem c28_trigger_order_agrees : forall c h, (forall n, In n (map fst h) -> n <= 10000) ->
   trig_order (map (fun e => part_number_of (fst e)) (dir_of c h)) = trig_order (map fst h).
 Proof. exact trig_order_dir. Qed.
 Print Assumptions c28_trigger_order_agrees.
-
-(* finding 0: parts 1001 and 10000 are assembled as 10000, 1001 *)
-Theorem c28_multipart_concat_refuted_order :
-  let h := [(1001, [1; 1]); (10000, [2; 2; 2])] in
-  (forall n, In n (map fst h) -> 1 <= n /\ n <= 10000) /\
-  trig_limit cfg_plain (dir_of cfg_plain h) = false /\ trig_inline (dir_of cfg_plain h) = false /\
-  List.concat (map snd (parts_of h)) = [1; 1; 2; 2; 2] /\
-  file_bytes (completed_file cfg_plain (dir_of cfg_plain h)) = [2; 2; 2; 1; 1].
-Proof. exact complete_concat_refuted_order. Qed.
-Print Assumptions c28_multipart_concat_refuted_order.
-
-(* finding 1: with -dirListLimit 2 the third part is silently dropped *)
-Theorem c28_multipart_concat_refuted_limit :
-  let c := {| c_limit := 2; c_inline := 0; c_chunk := 4 |} in
-  let h := [(1, [1]); (2, [2]); (3, [3])] in
-  trig_order (map fst h) = false /\ trig_inline (dir_of c h) = false /\
-  List.concat (map snd (parts_of h)) = [1; 2; 3] /\
-  file_bytes (completed_file c (dir_of c h)) = [1; 2].
-Proof. exact complete_concat_refuted_limit. Qed.
-Print Assumptions c28_multipart_concat_refuted_limit.
-
-(* finding 2: with -saveToFilerLimit 4 the parts shorter than 4 bytes are silently dropped *)
-Theorem c28_multipart_concat_refuted_inline :
-  let c := {| c_limit := 100000; c_inline := 4; c_chunk := 8 |} in
-  let h := [(1, [1; 1]); (2, [2; 2; 2; 2; 2]); (3, [3])] in
-  trig_order (map fst h) = false /\ trig_limit c (dir_of c h) = false /\
-  List.concat (map snd (parts_of h)) = [1; 1; 2; 2; 2; 2; 2; 3] /\
-  file_bytes (completed_file c (dir_of c h)) = [2; 2; 2; 2; 2].
-Proof. exact complete_concat_refuted_inline. Qed.
-Print Assumptions c28_multipart_concat_refuted_inline.
 
 (* ================= single objects ================= *)
 
@@ -104,7 +97,7 @@ Theorem c28_store_roundtrip : forall c b, 0 < c_chunk c -> file_bytes (store_bod
 Proof. exact store_body_bytes. Qed.
 Print Assumptions c28_store_roundtrip.
 
-(* PUT then GET, other keys untouched — outside trigger 4 (the key is a directory, or lies below a file) *)
+(* PUT then GET, other keys untouched — outside trigger 2 (the key is a directory, or lies below a file) *)
 Theorem c28_put_get_partial : forall s p f, p <> [] -> trig_write s p = false ->
   exists s', http_put s p f = (s', true) /\
              obj_at s' p = Some (file_bytes f) /\
@@ -112,7 +105,7 @@ Theorem c28_put_get_partial : forall s p f, p <> [] -> trig_write s p = false ->
 Proof. exact put_then_get. Qed.
 Print Assumptions c28_put_get_partial.
 
-(* finding 4 *)
+(* finding 2 *)
 Theorem c28_put_get_refuted :
   (exists s p f, p <> [] /\ trig_write s p = true /\ fst (http_put s p f) <> s /\
                  obj_at (fst (http_put s p f)) p = None) /\
@@ -136,50 +129,45 @@ Print Assumptions c28_range.
 (* every file the gateway creates satisfies the side condition of c28_range *)
 Theorem c28_files_ok : forall c,  0 < c_chunk c ->
   (forall b, file_ok (store_body c b)) /\
-  (forall d, (forall e, In e (listed c d) -> has_part_suffix (fst e) = true) -> file_ok (completed_file c d)).
-Proof. exact (fun c H => conj (fun b => store_body_ok c b H) (completed_file_ok c)). Qed.
+  (forall d, (forall e, In e (sort_by_number (listed d)) -> has_part_suffix (fst e) = true) ->
+             file_ok (completed_file d)).
+Proof. exact (fun c H => conj (fun b => store_body_ok c b H) completed_file_ok). Qed.
 Print Assumptions c28_files_ok.
 
 (* ================= deletes ================= *)
 
-(* c28_delete_exact, single DELETE: removes exactly the named key — outside trigger 3
+(* c28_delete_exact, single DELETE: removes exactly the named key — outside trigger 1
    (objects live below the key: the filer is asked to delete recursively) *)
 Theorem c28_delete_exact_single_partial : forall s p, has_file_below s p = false ->
   forall q, obj_at (delete_recursive s p) q = if path_eqb q p then None else obj_at s q.
 Proof. exact delete_exact. Qed.
 Print Assumptions c28_delete_exact_single_partial.
 
-(* finding 3 *)
+(* finding 1 *)
 Theorem c28_delete_exact_single_refuted : exists s p q, q <> p /\ obj_at s q <> None /\
   obj_at (delete_recursive s p) q = None.
 Proof. exact delete_exact_refuted. Qed.
 Print Assumptions c28_delete_exact_single_refuted.
 
-(* c28_delete_exact, batch delete (including the purge of emptied directories): removes exactly
-   the named keys — outside trigger 5 (a named key lies below an object the batch does not name) *)
-Theorem c28_delete_exact_batch_partial : forall s ks, (forall k, In k ks -> k <> []) -> trig_batch s ks = false ->
+(* c28_delete_exact, batch delete (including the purge of emptied directories), FULL: on every
+   store a batch delete removes exactly the named keys *)
+Theorem c28_delete_exact_batch : forall s ks, (forall k, In k ks -> k <> []) ->
   forall q, obj_at (batch_delete s ks) q = if existsb (path_eqb q) ks then None else obj_at s q.
 Proof. exact batch_delete_exact. Qed.
-Print Assumptions c28_delete_exact_batch_partial.
-
-(* finding 5 *)
-Theorem c28_delete_exact_batch_refuted : exists s ks q, (forall k, In k ks -> k <> []) /\
-  existsb (path_eqb q) ks = false /\ obj_at s q <> None /\ obj_at (batch_delete s ks) q = None.
-Proof. exact batch_delete_exact_refuted. Qed.
-Print Assumptions c28_delete_exact_batch_refuted.
+Print Assumptions c28_delete_exact_batch.
 
 (* ================= whole histories ================= *)
 
 (* C28 at full strength over histories: from the empty bucket, for every configuration with
-   positive chunk size and listing limit, every history of PUT / streaming PUT / copy / GET
-   (whole and ranged) / DELETE / batch delete / multipart create, part upload, part copy,
-   complete, abort, list requests inside the domain (non-empty keys, part numbers in 1..10000
-   or above the gateway's own maximum) on which NO known-finding trigger (0..8) fires:
-   every GET and ListParts answer is the one of the flat key -> bytes specification (a completed
-   upload = its parts in ascending part-number order), and at the end the file entries under the
-   bucket are exactly the specification's objects *)
+   positive chunk size, every history of PUT / streaming PUT / copy / GET (whole and ranged) /
+   DELETE / batch delete / multipart create, part upload, part copy, complete, abort, list
+   requests inside the domain (non-empty keys, part numbers in 1..10000 or above the gateway's
+   own maximum) on which NO known-finding trigger (0..4) fires: every GET and ListParts answer is
+   the one of the flat key -> bytes specification (a completed upload = its parts in ascending
+   part-number order), and at the end the file entries under the bucket are exactly the
+   specification's objects *)
 Theorem c28_history_refines_spec : forall c ops rs fin es sfin,
-  0 < c_chunk c -> 1 <= c_limit c -> forallb op_in_domain ops = true ->
+  0 < c_chunk c -> forallb op_in_domain ops = true ->
   run c init_state ops = (rs, [], fin) -> srun sinit ops = (es, sfin) ->
   all2 meets es rs = true /\
   forall q, obj_at (st_store fin) q = sfind (ss_objs sfin) q.
@@ -188,23 +176,29 @@ Print Assumptions c28_history_refines_spec.
 
 (* non-vacuity *)
 Example c28_multipart_example :
-  let h := [(9999, [9; 9; 9; 9; 9; 9]); (2, [7]); (1000, [5; 5; 5; 5; 5]); (2, [2; 2]); (1, [])] in
-  trig_order (map fst h) = false /\ trig_limit cfg_plain (dir_of cfg_plain h) = false /\
+  let h := [(9999, [9; 9; 9; 9; 9; 9]); (2, [7]); (1000, [5; 5; 5; 5; 5]); (2, [2; 2]); (10000, [4]); (1, [])] in
   trig_inline (dir_of cfg_plain h) = false /\
-  file_bytes (completed_file cfg_plain (dir_of cfg_plain h)) = [2; 2; 5; 5; 5; 5; 5; 9; 9; 9; 9; 9; 9] /\
-  map (fun e => List.length (f_chunks (snd e))) (dir_of cfg_plain h) = [0; 1; 2; 2]%nat.
+  file_bytes (completed_file (dir_of cfg_plain h)) = [2; 2; 5; 5; 5; 5; 5; 9; 9; 9; 9; 9; 9; 4] /\
+  map (fun e => List.length (f_chunks (snd e))) (dir_of cfg_plain h) = [0; 1; 2; 1; 2]%nat.
 Proof. exact complete_concat_example. Qed.
 
+(* the repaired order defect as a concrete fact: the names list 10000 before 1001, the object does not *)
+Example c28_multipart_10000_example :
+  let h := [(1001, [1; 1]); (10000, [2; 2; 2]); (2, [3])] in
+  map (fun e => part_number_of (fst e)) (dir_of cfg_plain h) = [2; 10000; 1001] /\
+  file_bytes (completed_file (dir_of cfg_plain h)) = [3; 1; 1; 2; 2; 2].
+Proof. exact complete_concat_10000. Qed.
+
 Example c28_history_example :
-  let c := {| c_limit := 1000; c_inline := 0; c_chunk := 4 |} in
+  let c := {| c_inline := 0; c_chunk := 4 |} in
   let ka := ["a"%string; "b"%string] in let kf := ["f"%string] in let kg := ["g"%string; "h"%string] in
-  let ops := [Put ka [1; 2; 3; 4; 5; 6]; Copy ka kg; MpCreate kf; MpPut 0 1000 [7; 7; 7; 7; 7];
-              MpPut 0 2 [8]; MpPut 0 2 [9; 9]; MpCopy 0 999 ka (Some (1, 3)); MpList 0; MpComplete 0;
+  let ops := [Put ka [1; 2; 3; 4; 5; 6]; Copy ka kg; MpCreate kf; MpPut 0 10000 [7; 7; 7; 7; 7];
+              MpPut 0 2 [8]; MpPut 0 2 [9; 9]; MpCopy 0 1001 ka (Some (1, 3)); MpComplete 0;
               Get kf None; Get kf (Some (RClosed 1 6)); Del ka; BatchDel [kg; ka]; Get kg None] in
   forallb op_in_domain ops = true /\
   snd (fst (run c init_state ops)) = [] /\
   fst (fst (run c init_state ops)) =
-    [ROk; ROk; ROk; ROk; ROk; ROk; ROk; RParts [(2, 2); (999, 3); (1000, 5)]; ROk;
+    [ROk; ROk; ROk; ROk; ROk; ROk; ROk; ROk;
      RData [9; 9; 2; 3; 4; 7; 7; 7; 7; 7]; RData [9; 2; 3; 4; 7; 7]; ROk; ROk; RNotFound] /\
   objects (st_store (snd (run c init_state ops))) = [(kf, [9; 9; 2; 3; 4; 7; 7; 7; 7; 7])].
 Proof. exact history_example. Qed.
